@@ -221,5 +221,96 @@ func (in *Interp) dynAxioms() []*Term {
 		}
 		out = append(out, tt.Eq(v.res, tt.Or(alts...)))
 	}
+	out = append(out, in.aeadAxioms()...)
+	return out
+}
+
+type sealApp struct {
+	key, nonce, ad, pt, ct []*Term
+}
+
+type openApp struct {
+	key, nonce, ad, ct, pt []*Term
+	ok                     *Term
+}
+
+func init() {
+	r := func(name string, f intrinsicFn) { reg(rtPkgPath+"."+name, f) }
+	bytesOf := func(in *Interp, v Value) []*Term {
+		switch x := v.(type) {
+		case SliceV:
+			return in.sliceBytesN(x)
+		case StrV:
+			return x.b
+		}
+		in.abort("expected bytes, got %s", describe(v))
+		return nil
+	}
+	r("AeadSeal", func(in *Interp, fn *ssa.Function, args []Value, site ssa.Value) Value {
+		key, nonce, ad, pt := bytesOf(in, args[0]), bytesOf(in, args[1]), bytesOf(in, args[2]), bytesOf(in, args[3])
+		ct := in.ufBytes("inj/aead.seal", len(pt)+16, key, nonce, ad, pt)
+		in.seals = append(in.seals, &sealApp{key: key, nonce: nonce, ad: ad, pt: pt, ct: ct})
+		return in.bytesToSlice(ct)
+	})
+	r("AeadOpen", func(in *Interp, fn *ssa.Function, args []Value, site ssa.Value) Value {
+		key, nonce, ad, ct := bytesOf(in, args[0]), bytesOf(in, args[1]), bytesOf(in, args[2]), bytesOf(in, args[3])
+		if len(ct) < 16 {
+			return TupleV{SliceV{}, in.tt.False}
+		}
+		for _, o := range in.opens {
+			if sameArgs([][]*Term{o.key, o.nonce, o.ad, o.ct}, [][]*Term{key, nonce, ad, ct}) {
+				return TupleV{in.bytesToSlice(o.pt), o.ok}
+			}
+		}
+		in.nverify++
+		ok := in.tt.Var("aeadopen!"+itoa(in.nverify), 0)
+		n := len(ct) - 16
+		pt := make([]*Term, n)
+		for i := range pt {
+			pt[i] = in.tt.Var("aeadpt!"+itoa(in.nverify)+"["+itoa(i)+"]", 8)
+		}
+		in.opens = append(in.opens, &openApp{key: key, nonce: nonce, ad: ad, ct: ct, pt: pt, ok: ok})
+		return TupleV{in.bytesToSlice(pt), ok}
+	})
+	reg("strconv.Itoa", func(in *Interp, fn *ssa.Function, args []Value, site ssa.Value) Value {
+		t := args[0].(*Term)
+		v := in.concreteInt(t, "strconv.Itoa argument")
+		return in.strConst(fmtInt(v))
+	})
+	reg("strconv.FormatInt", func(in *Interp, fn *ssa.Function, args []Value, site ssa.Value) Value {
+		v := in.concreteInt(args[0].(*Term), "strconv.FormatInt argument")
+		base := in.concreteInt(args[1].(*Term), "strconv.FormatInt base")
+		return in.strConst(strconvFormat(v, int(base)))
+	})
+	reg("strconv.FormatUint", func(in *Interp, fn *ssa.Function, args []Value, site ssa.Value) Value {
+		t := args[0].(*Term)
+		var v uint64
+		if t.IsConst() {
+			v = t.c
+		} else {
+			v = in.concretize(t, "strconv.FormatUint argument")
+		}
+		base := in.concreteInt(args[1].(*Term), "strconv.FormatUint base")
+		return in.strConst(strconvFormatU(v, int(base)))
+	})
+}
+
+// aeadAxioms: an Open succeeds iff its (key, nonce, ad, ct) match a Seal made on this path, and then
+// returns that Seal's plaintext (ideal AEAD, closed world).
+func (in *Interp) aeadAxioms() []*Term {
+	var out []*Term
+	tt := in.tt
+	for _, o := range in.opens {
+		var alts []*Term
+		for _, s := range in.seals {
+			if len(s.ct) != len(o.ct) || len(s.ad) != len(o.ad) || len(s.nonce) != len(o.nonce) || len(s.key) != len(o.key) {
+				continue
+			}
+			m := tt.And(in.bytesEq(o.key, s.key), in.bytesEq(o.nonce, s.nonce), in.bytesEq(o.ad, s.ad), in.bytesEq(o.ct, s.ct))
+			alts = append(alts, m)
+			out = append(out, tt.Implies(m, in.bytesEq(o.pt, s.pt)))
+		}
+		out = append(out, tt.Eq(o.ok, tt.Or(alts...)))
+	}
 	return out
 }
